@@ -78,6 +78,19 @@ func legGates(c *Ctx) {
 			pats = append(pats, patCase{pat: s, o: o, alpha: []rune{'a', 'b', 'c', 'd', 'x', 'y', '\n', '.', '1', '2', ' ', 'h', 'i', 't', 'e', 'A'}})
 		}
 	}
+	// a single-character loop, an OPTIONAL multi-character group, then something the loop overlaps (or not): what
+	// follows the loop is whatever follows the group as much as the group's first node
+	for _, l := range []string{`a*`, `a+`, `[ab]*`, `\d*`} {
+		for _, g := range []string{`(?:bc)?`, `(?:bc)*`, `(b|c)?`, `(?:b+c)?`, `(?:\.\d+)?`, `(?:bc)??`, `(?:bc){0,2}`} {
+			for _, f := range []string{`a`, `[ab]c`, `\d`} {
+				if c.Thorough || c.Rng.Chance(40) {
+					for _, o := range []Opts{{}, {RTL: true}} {
+						pats = append(pats, patCase{pat: l + g + f, o: o, alpha: []rune{'a', 'b', 'c', '1', '.', 'x'}})
+					}
+				}
+			}
+		}
+	}
 	pats = append(pats, genPatterns(c.Rng, c.N(300, 8000), true)...)
 	for _, h := range harvestedPatterns() {
 		if c.Rng.Chance(c.N(30, 100)) {
